@@ -15,14 +15,14 @@ from . import common, c04
 ID = "C07"
 NEEDS_MODEL = True
 LEVEL = "exploration"
-N = {"quick": 1200, "thorough": 24000}
+N = {"quick": 2000, "thorough": 24000}
 CLASSES = ["plain", "shape", "occupancy", "flatten", "affine", "cascade"]
 TECHNIQUE = ("runtime monitoring: namespace / rank-id / ownership monitors on instrumented "
              "executions of emitted programs on the reference model")
 
 
 def classify(spec, problems, extents=None):
-    k = kf.classify_name_error(spec, problems)
+    k = kf.classify_plain(spec, problems)
     if k:
         return k
     if "partitioned" in spec.tags and "halo" in spec.tags:
